@@ -156,7 +156,7 @@ type c14Live struct {
 // under every flag combination) and keeps some units for later.
 func c14StartLive(k *sim.Kernel, w *World, name string, conf LalConf, first int) *c14Live {
 	l := &c14Live{}
-	l.units = admUnits(0, 90, true)
+	l.units = admUnits(0, 900, true)
 	q, _ := c14Query("right", keyOf(conf), conf.AuthOverride, name)
 	l.pub = actors.NewRtmpClient(k, "live-"+name, actors.RolePublish, "live", name+"?"+q)
 	l.pub.Connect(PortRtmp, 1)
